@@ -22,7 +22,7 @@ from vf.core import CaseResult, Ctx, Violation, exc_sig
 
 PROP_ID = 'C44'
 LEVEL = 'exploration'
-BUDGET = {'quick': 1024, 'thorough': 3584}
+BUDGET = {'quick': 1536, 'thorough': 4096}
 EXHAUSTIVE = {'quick': True, 'thorough': True}
 MANIFEST = {
     'engine': 'F',
@@ -33,9 +33,11 @@ MANIFEST = {
 RULE = (
     'Exhaustive: every umask 0o000-0o777 x {first start followed by a '
     'restart under the same umask; first start under 0o022 followed by a '
-    'restart under the umask} (quick: 1024 cases); thorough adds first '
+    'restart under the umask; the same with the private DB replaced before '
+    'the restart by a copy of the public one made under that umask (the '
+    'recovery `cp log/db .service/db`)} (quick: 1536 cases); thorough adds first '
     'start under 0o000/0o002/0o027/0o077/0o777 followed by a restart under '
-    'every umask (3584 cases).  Each case runs in a forked child: umask set, '
+    'every umask (4096 cases).  Each case runs in a forked child: umask set, '
     'run dir created, then the scheduler start-up sequence '
     '(WorkflowDatabaseManager, restart_check on restart, '
     'make_workflow_run_tree, key_housekeeping, on_workflow_start, one '
@@ -64,6 +66,10 @@ def all_cases(tier):
         cases.append({'first': u, 'restart': u})
     for u in range(512):
         cases.append({'first': 0o022, 'restart': u})
+    for u in range(512):
+        # the documented recovery of a lost private DB: it is copied back
+        # from the public one (a new file, created under the umask)
+        cases.append({'first': 0o022, 'restart': u, 'recover': True})
     if tier == 'thorough':
         for f in (0o000, 0o002, 0o027, 0o077, 0o777):
             for u in range(512):
@@ -97,6 +103,17 @@ def _startup(wid):
     mgr.process_queued_ops()
     mgr.on_workflow_shutdown()
     return is_restart
+
+
+def _recover_db(wid):
+    """`cp log/db .service/db` (the recovery the restart check suggests)
+    under the current umask."""
+    from cylc.flow.pathutil import get_workflow_run_dir
+    from cylc.flow.workflow_files import get_workflow_srv_dir
+    pri = os.path.join(get_workflow_srv_dir(wid), 'db')
+    pub = os.path.join(get_workflow_run_dir(wid), 'log', 'db')
+    os.unlink(pri)
+    shutil.copyfile(pub, pri)
 
 
 def _modes(wid):
@@ -133,6 +150,8 @@ def _child_one(case, wid):
             try:
                 if phase == 'first':
                     os.makedirs(get_workflow_run_dir(wid))
+                elif case.get('recover'):
+                    _recover_db(wid)
                 was_restart = _startup(wid)
             except OSError as exc:
                 import errno
@@ -189,7 +208,8 @@ def _preload():
 
 
 def _wid(case):
-    return 'c44w%03o_%s' % (case['first'], (
+    return 'c44%s%03o_%s' % ('r' if case.get('recover') else 'w',
+                              case['first'], (
         '%03o' % case['restart']) if case['restart'] is not None else 'x')
 
 
@@ -274,6 +294,8 @@ def _judge(case, report):
            if u is not None and (u & 0o066) != 0o066]
     if lax:
         classes.add('umask-leaves-group-or-other-bits')
+    if case.get('recover'):
+        classes.add('private-db-recovered-from-public-copy')
     if case['first'] & 0o700 or (case['restart'] or 0) & 0o700:
         classes.add('umask-denies-owner')
     seen = {}
@@ -282,7 +304,8 @@ def _judge(case, report):
     return CaseResult(list(seen.values()),
                       nontrivial=bool(completed and lax),
                       classes=sorted(classes),
-                      distinct_key=[case['first'], case['restart']],
+                      distinct_key=[case['first'], case['restart'],
+                                    bool(case.get('recover'))],
                       info=report['phases'][-1] if report['phases'] else None)
 
 
